@@ -89,6 +89,7 @@ def points(obj, fam, k):
 def use(obj, pts):
     """The 'use' operation: touch every lazily computed quantity."""
     for f in (lambda: obj.logpdf(pts[0]), lambda: obj.gradient(pts[0]), lambda: obj.sample(2, rng=np.random.RandomState(3)),
+              lambda: obj.sample(1, rng=np.random.RandomState(4)), lambda: obj.sample(1), lambda: obj.compute_cov(),
               lambda: obj.sqrtprec, lambda: obj.sqrtprecTimesMean, lambda: obj.prec, lambda: obj.cov, lambda: obj.logd(pts[1])):
         try:
             f()
@@ -97,9 +98,11 @@ def use(obj, pts):
 
 
 def eval_cell(cell, prop, observe, what, judge=None):
-    """observe(obj, pts) -> dict name -> ('val', array) | ('exc', type name); compared live vs fresh after every step.
+    """observe(obj, pts) -> dict name -> ('val', array) | ('exc', type name); compared live vs fresh.
     judge(live, fresh, pts) -> list of (observable name, ok, detail) replaces the live-vs-fresh comparison when the
-    property has its own oracle (e.g. gradient == derivative of the same object's logd, or refused)."""
+    property has its own oracle (e.g. gradient == derivative of the same object's logd, or refused).
+    Two judging modes per history: after every assignment, and only after the last one (several assignments without
+    any evaluation in between - catches derived quantities that are synchronised lazily, one at a time)."""
     res = CellResult(cell)
     k = cell["cat"]
     fam = cell["family"]
@@ -118,57 +121,69 @@ def eval_cell(cell, prop, observe, what, judge=None):
         res.outcomes.add("refused:%s" % type(e).__name__)
         return res
     reported = set()
+    hist = []
+
+    def verdicts_of(live, cur):
+        fresh = ctor({kk: (np.array(v, copy=True) if isinstance(v, np.ndarray) else v) for kk, v in cur.items()})
+        if judge is not None:
+            return judge(live, fresh, pts)
+        ol, of = observe(live, pts), observe(fresh, pts)
+        out = []
+        for name_o in of:
+            kl, vl = ol[name_o]
+            kf, vf = of[name_o]
+            same = (kl == kf) and (kl == "exc" or close(vl, vf, 1e-9))
+            out.append((name_o, same, "%s vs %s" % (_short(vl), _short(vf))))
+        return out
+
     for L in range(1, cell["depth"] + 1):
         for seq in itertools.product(range(len(ops)), repeat=L):
             if L > 1 and ops[seq[-1]][0] == "use" and ops[seq[-2]][0] == "use":
                 continue
-            if not any(ops[i][0] == "set" for i in seq):
+            nset = sum(1 for i in seq if ops[i][0] == "set")
+            if nset == 0:
                 continue
-            cur = dict(A)
-            live = ctor(dict(A))
-            hist = []
-            for oi in seq:
-                name, a, j = ops[oi]
-                res.transitions += 1
-                if name == "use":
-                    use(live, pts)
-                    hist.append("use")
-                    continue
-                val = (A, B)[j][a]
-                hist.append("%s:=%s" % (a, "AB"[j]))
-                try:
-                    setattr(live, a, np.array(val, copy=True) if isinstance(val, np.ndarray) else val)
-                except Exception as e:
-                    res.refused += 1
-                    res.outcomes.add("set-refused:%s:%s" % (a, type(e).__name__))
-                    break
-                cur[a] = val
-                res.state(tuple(sorted((kk, "AB"[int(cur[kk] is B[kk])]) for kk in cur)))
-                fresh = ctor({kk: (np.array(v, copy=True) if isinstance(v, np.ndarray) else v) for kk, v in cur.items()})
-                if judge is not None:
-                    verdicts = judge(live, fresh, pts)
-                else:
-                    ol, of = observe(live, pts), observe(fresh, pts)
-                    verdicts = []
-                    for name_o in of:
-                        kl, vl = ol[name_o]
-                        kf, vf = of[name_o]
-                        same = (kl == kf) and (kl == "exc" or close(vl, vf, 1e-9))
-                        verdicts.append((name_o, same, "%s vs %s" % (_short(vl), _short(vf))))
-                res.evaluations += 1
-                failed_here = False
-                for name_o, ok, detail in verdicts:
-                    if not ok:
-                        failed_here = True
-                        sig = "%s|%s|%s-after-reassignment|%s,attr=%s" % (prop, comp, name_o, facet_base, a)
-                        if sig not in reported:
-                            reported.add(sig)
-                            res.fail(sig, "after the history %s the object's %s is wrong: %s (reference: a freshly constructed "
-                                     "object with the same parameter values / the property's own oracle)" % (hist, name_o, detail),
-                                     focus={"history": list(hist), "family": fam})
-                if failed_here:
-                    break      # later steps of this history inherit the fault: attribute it to the first failing step only
-            res.traces += 1
+            for every_step in ((True, False) if nset > 1 else (True,)):
+                cur = dict(A)
+                live = ctor(dict(A))
+                hist = []
+                iset = 0
+                for oi in seq:
+                    name, a, j = ops[oi]
+                    res.transitions += 1
+                    if name == "use":
+                        use(live, pts)
+                        hist.append("use")
+                        continue
+                    val = (A, B)[j][a]
+                    hist.append("%s:=%s" % (a, "AB"[j]))
+                    iset += 1
+                    try:
+                        setattr(live, a, np.array(val, copy=True) if isinstance(val, np.ndarray) else val)
+                    except Exception as e:
+                        res.refused += 1
+                        res.outcomes.add("set-refused:%s:%s" % (a, type(e).__name__))
+                        break
+                    cur[a] = val
+                    res.state(tuple(sorted((kk, "AB"[int(cur[kk] is B[kk])]) for kk in cur)))
+                    if not every_step and iset < nset:
+                        continue
+                    res.evaluations += 1
+                    failed_here = False
+                    for name_o, ok, detail in verdicts_of(live, cur):
+                        if not ok:
+                            failed_here = True
+                            sig = "%s|%s|%s-after-reassignment|%s,attr=%s" % (prop, comp, name_o, facet_base,
+                                                                              a if every_step else "several")
+                            if sig not in reported:
+                                reported.add(sig)
+                                res.fail(sig, "after the history %s%s the object's %s is wrong: %s (reference: a freshly "
+                                         "constructed object with the same parameter values / the property's own oracle)"
+                                         % (hist, "" if every_step else " (no evaluation between the assignments)", name_o, detail),
+                                         focus={"history": list(hist), "family": fam, "judged_after_every_step": every_step})
+                    if failed_here:
+                        break      # later steps inherit the fault: attribute it to the first failing step only
+                res.traces += 1
     res.outcomes.add("%s:%s:%d" % (what, fam, len(reported)))
     res.sample = {"family": fam, "last_history": hist, "what": what}
     return res
